@@ -54,10 +54,10 @@ Section Limit.
   Qed.
 
   Theorem limit_inv_run : forall k ops,
-    sinv k limit_entry (fun _ => True) limit_msg (run cf (init k) ops).
+    sinv k limit_entry (fun _ => True) limit_msg (fun _ => True) (run cf (init k) ops).
   Proof.
     intros k ops.
-    apply (run_sinv cf k limit_entry (fun _ => True) limit_msg (fun _ => True)); auto; intros;
+    apply (run_sinv cf k limit_entry (fun _ => True) limit_msg (fun _ => True) (fun _ => True)); auto; intros;
       try solve [eapply L_store; eauto | eapply L_fwd; eauto | eapply L_ann; eauto | eapply L_replay; eauto].
     - split; auto. unfold limit_entry. simpl. tauto.
     - apply Forall_forall. auto.
@@ -67,7 +67,10 @@ Section Limit.
     In m (snd (fst (step cf (run cf (init k) ops) o))) -> limit_msg m.
   Proof.
     intros k ops o m Hin.
-    apply (step_ssent cf k limit_entry (fun _ => True) limit_msg (fun _ => True)) with (ops := ops) (o := o); auto; intros;
+    destruct (is_w (m_adv m)) eqn:Hw.
+    { (* a withdrawal carries no path *)
+      unfold limit_msg, within, is_w in *. destruct (a_path (m_adv m)); [|discriminate]. right. unfold lenN. simpl. lia. }
+    apply (step_ssent cf k limit_entry (fun _ => True) limit_msg (fun _ => True) (fun _ => True)) with (ops := ops) (o := o); auto; intros;
       try solve [eapply L_store; eauto | eapply L_fwd; eauto | eapply L_ann; eauto | eapply L_replay; eauto].
     - split; auto. unfold limit_entry. simpl. tauto.
     - apply Forall_forall. auto.
